@@ -213,4 +213,79 @@ theorem fixup_arity (g : Graph) (c : Cls) (as : List Ty) (k : Nat) (h : arity g 
 
 example : fixup gEx (.inst 3 []) = .inst 3 [.any] := rfl
 
+/-! ## 9. a union on the right: some member suffices (both relations); strict ⇒ lenient -/
+
+/-- `is_subtype(L, R₁ | … | Rₙ)` / `is_maybe_subtype(L, R₁ | … | Rₙ)` for a left operand that is not itself a union
+(the shared fast path of both functions) hold exactly when the same relation holds to some member — whatever
+unions are nested inside `L`. -/
+theorem union_right_iff_any (g : Graph) (L : Ty) (rs : List Ty) (hL : L.isUnion = false) :
+    (isSubtype g L (.union rs) = true ↔ ∃ r ∈ rs, isSubtype g L r = true) ∧
+    (isMaybeSubtype g L (.union rs) = true ↔ ∃ r ∈ rs, isMaybeSubtype g L r = true) := by
+  simp [isSubtype, isMaybeSubtype, sub_union_right g _ _ L rs hL, List.any_eq_true]
+
+/-- Widening the right-hand side to a union that contains it never loses a (may-be-)subtype fact, for every
+well-formed left operand (unions included). -/
+theorem union_right_mono (g : Graph) (L r : Ty) (rs : List Ty) (hL : L.wf g = true) (hr : r ∈ rs) :
+    (isSubtype g L r = true → isSubtype g L (.union rs) = true) ∧
+    (isMaybeSubtype g L r = true → isMaybeSubtype g L (.union rs) = true) :=
+  ⟨sub_union_right_of_mem g false false L.size L r rs (Nat.le_refl _) hL hr,
+   sub_union_right_of_mem g true false L.size L r rs (Nat.le_refl _) hL hr⟩
+
+/-- The lenient relation contains the strict one ("this check only differs from is_subtype in how it handles
+Unions": `any` instead of `all` over a non-empty union). -/
+theorem sub_imp_maybe (g : Graph) (L R : Ty) (hL : L.wf g = true) (hR : R.wf g = true)
+    (h : isSubtype g L R = true) : isMaybeSubtype g L R = true :=
+  sub_lenient_of_strict_aux g false _ L R (Nat.le_refl _) hL hR h
+
+/-- nested unions: `tuple[int | str]` may be a `tuple[int]`, hence a `tuple[int] | str`, and (invariant argument)
+`list[int | str]` may be a `list[int] | None`; none of these holds strictly; the distances are defined. -/
+example :
+    isMaybeSubtype gEx (.tuple false [.union [tInt, tStr]]) (.union [.tuple false [tInt], tStr]) = true ∧
+    isSubtype gEx (.tuple false [.union [tInt, tStr]]) (.union [.tuple false [tInt], tStr]) = false ∧
+    isMaybeSubtype gEx (tList (.union [tInt, tStr])) (.union [tList tInt, .none]) = true ∧
+    isSubtype gEx (tList (.union [tInt, tStr])) (.union [tList tInt, .none]) = false ∧
+    isMaybeSubtype gEx (.tuple false [.tuple false [.union [tInt, tStr]]])
+      (.union [.tuple false [.tuple false [tStr]], .tuple false [tInt, tInt]]) = true ∧
+    dist gEx 30 (.union [.tuple false [tInt], tStr]) (.tuple false [.union [tInt, tStr]]) = some 0 ∧
+    (Ty.tuple false [.union [tInt, tStr]]).isUnion = false := by decide
+
+/-! ## 10. parameterised instances of different classes -/
+
+/-- `0 object, 1 int, 2 str, 3 list, 4 dict, 5 MyList(list), 6 Stack(MyList), 7 Box, 8 FancyBox(Box),
+9 OrderedDict(dict)`; no tower. -/
+def gGen : Graph :=
+  ofClassTable [(0, []), (1, [0]), (2, [0]), (3, [0]), (4, [0]), (5, [3]), (6, [5]), (7, [0]), (8, [7]), (9, [4])]
+    [(3, 1), (4, 2)]
+
+/-- A distance between two `Instance`s — with or without type arguments — is defined only if the subtype's class
+is a subclass of the supertype's class (direction matters: `visit_instance` asks for a path supertype → subtype). -/
+theorem dist_inst_defined_imp_subclass (g : Graph) (anyD : Nat) (c d : Cls) (as bs : List Ty) (k : Nat)
+    (h : dist g anyD (.inst c as) (.inst d bs) = some k) : isSubclass g d c = true := by
+  cases hs : isSubclass g d c with
+  | true => rfl
+  | false => rw [dist_unrelated_generic_none g anyD c d as bs hs] at h; cases h
+
+/-- Conversely, related classes and defined argument distances give a defined distance: the sum of the argument
+distances (both sides parameterised). -/
+theorem dist_inst_args_related (g : Graph) (anyD : Nat) (c d : Cls) (as bs : List Ty)
+    (has : as ≠ []) (hbs : bs ≠ []) (h : isSubclass g d c = true) :
+    dist g anyD (.inst c as) (.inst d bs) = sumOpt (List.zipWith (dist g anyD) as bs) := by
+  rw [dist_unfold]
+  simp only [distStep]
+  have h1 : (!as.isEmpty && !bs.isEmpty) = true := by
+    cases as <;> cases bs <;> simp_all
+  have h2 : (spl g c d).isNone = false := by
+    simp only [isSubclass] at h; cases hh : spl g c d <;> simp [hh] at h ⊢
+  simp [h1, h2]
+
+example :
+    dist gGen 30 (.inst 4 [.inst 2 [], .inst 1 []]) (.inst 9 [.inst 2 [], .inst 1 []]) = some 0 ∧
+    dist gGen 30 (.inst 9 [.inst 2 [], .inst 1 []]) (.inst 4 [.inst 2 [], .inst 1 []]) = none ∧
+    isMaybeSubtype gGen (.inst 9 [.inst 2 [], .inst 1 []]) (.inst 4 [.inst 2 [], .inst 1 []]) = true ∧
+    isMaybeSubtype gGen (.inst 4 [.inst 2 [], .inst 1 []]) (.inst 9 [.inst 2 [], .inst 1 []]) = false ∧
+    dist gGen 30 (.inst 7 [.inst 1 []]) (.inst 8 [.inst 1 []]) = some 0 ∧
+    dist gGen 30 (.inst 8 [.inst 1 []]) (.inst 7 [.inst 1 []]) = none ∧
+    dist gGen 30 (.inst 3 [.inst 0 []]) (.inst 6 [.inst 1 []]) = some 1 ∧
+    dist gGen 30 (.inst 6 [.inst 1 []]) (.inst 3 [.inst 1 []]) = none := by decide
+
 end PynguinModel.Types
